@@ -412,7 +412,13 @@ def register_b4(reg, B4T):
     reg.add(C.Contract(f"{b4}.__invert__", params=dict(self=B4T), ensures={"is_mirror": "result.value == 5 - self.value"}, result=B4T, **common))
     reg.add(C.Contract(f"{b4}.is_truthy", params=dict(self=B4T), ensures={"iff_TRUE_or_PRESUMABLY_TRUE": "result == (self.value >= 3)"}, result=C.Bool(), **common))
     reg.add(C.Contract(f"{b4}.is_falsy", params=dict(self=B4T), ensures={"iff_FALSE_or_PRESUMABLY_FALSE": "result == (self.value <= 2)"}, result=C.Bool(), **common))
-    reg.add(C.Contract(f"{b4}.from_bool", params=dict(b=C.Bool()), ensures={"TRUE_iff_b": "result.value == (4 if b else 1)"}, result=B4T, **common))
+
+    def from_bool_result(I, env):
+        # at call sites the (verified) postcondition is used in closed form: the member whose value is `4 if b else 1`
+        t = I.truth(env.vars["b"])
+        return ML.b4((TRUE if t else FALSE) if isinstance(t, bool) else SV(z3.If(t, z3.IntVal(TRUE), z3.IntVal(FALSE))))
+
+    reg.add(C.Contract(f"{b4}.from_bool", params=dict(b=C.Bool()), ensures={"TRUE_iff_b": "result.value == (4 if b else 1)"}, result=from_bool_result, **common))
 
 
 # ================================================================================================ (1) Atomic / Not / And / Or / Next / constant
@@ -1163,19 +1169,17 @@ def register_end_to_end(reg, B4T):
                 return
             f, w = env.vars["_f"], env.vars["_w"]
             verdicts = env.vars["_verdicts"] + [outcome[1]]
-            for t, vd in enumerate(verdicts):
+            if not all(ML.is_b4(vd) for vd in verdicts):
+                eng.check(f"{cn}#ensures.returns_a_B4_member", False)
+                return
+            exact, sound = [], []
+            for t, vd in enumerate(verdicts):  # every prefix is a complete trace of its own, and every longer prefix one of its extensions
                 n = t + 1
-                if not ML.is_b4(vd):
-                    eng.check(f"{cn}#ensures.returns_a_B4_member", False)
-                    continue
                 v = b4val(vd)
-                eng.check(f"{cn}#ensures.end_exact", (v >= PT) == sat(f, w, 0, n))
-                eng.check(f"{cn}#ensures.early_rejection_sound", z3.Implies(v == FALSE, z3.And(*[z3.Not(sat(f, w, 0, m)) for m in range(n, E2E_N + 1)])))
-                # the reference semantics used by the per-class contracts, validated against `sat` on the same space
-                s = sem4(f, w, 0, n)
-                eng.check(f"{cn}#lemma.sem4_truthy_iff_sat", (s >= PT) == sat(f, w, 0, n))
-                eng.check(f"{cn}#lemma.sem4_FALSE_only_if_no_extension_satisfies", z3.Implies(s == FALSE, z3.And(*[z3.Not(sat(f, w, 0, m)) for m in range(n, E2E_N + 1)])))
-                eng.check(f"{cn}#lemma.sem4_TRUE_only_if_every_extension_satisfies", z3.Implies(s == TRUE, z3.And(*[sat(f, w, 0, m) for m in range(n, E2E_N + 1)])))
+                exact.append((v >= PT) == sat(f, w, 0, n))
+                sound.append(z3.Implies(v == FALSE, z3.And(*[z3.Not(sat(f, w, 0, m)) for m in range(n, E2E_N + 1)])))
+            eng.check(f"{cn}#ensures.end_exact", z3.And(*exact))
+            eng.check(f"{cn}#ensures.early_rejection_sound", z3.And(*sound))
 
         holder["c"] = C.Contract(
             tgt,
@@ -1197,3 +1201,41 @@ def register_end_to_end(reg, B4T):
     for k in range(0, len(nested), CH):
         make(f"until below a temporal operator, formulas {k}-{min(k + CH, len(nested)) - 1}", nested[k : k + CH], "depth <= 2 over a, b; an `until` below next/always/eventually/until, i.e. evaluated at positions > 0")
     make("temporal rhs of until", premature, "`a until ((next next c) or d)` and its negation")
+
+    # ---- the reference semantics sem4 used by the per-class contracts, validated against `sat` on the same bounded space
+    # (pure specification lemmas: no code of the dependency is involved; hung on Monitor.evaluate of a one-atom monitor)
+    allf = plain + nested + premature
+
+    def make_lemma(k0, k1):
+        key = f"{tgt}[lemma sem4 vs sat, formulas {k0}-{k1 - 1}]"
+        cn = short_of(tgt, key)
+        holder = {}
+
+        def setup(I, env):
+            with driver_frame(I, holder["c"]):
+                p = I.instantiate(repo_class(f"{PROP}:Atomic"), [], dict(identifier="a"))
+                mon = build_monitor(I, ("atom", "a"), {"a": p})
+                I.call_function(I.find_method(mon.cls, "update"), [mon, PDict([("a", True)])], {})
+            env.vars["self"] = mon
+
+        def post(I, env, outcome):
+            eng = I.eng
+            for f in allf[k0:k1]:
+                names = atoms_of(f)
+                w = {x: [z3.Bool(f"{x}{t}") for t in range(E2E_N)] for x in names}
+                tr, fa, tu = [], [], []
+                for n in range(1, E2E_N + 1):
+                    s4 = sem4(f, w, 0, n)
+                    tr.append((s4 >= PT) == sat(f, w, 0, n))
+                    fa.append(z3.Implies(s4 == FALSE, z3.And(*[z3.Not(sat(f, w, 0, m)) for m in range(n, E2E_N + 1)])))
+                    tu.append(z3.Implies(s4 == TRUE, z3.And(*[sat(f, w, 0, m) for m in range(n, E2E_N + 1)])))
+                eng.check(f"{cn}#lemma.sem4_truthy_iff_sat", z3.And(*tr), detail=show(f))
+                eng.check(f"{cn}#lemma.sem4_FALSE_only_if_no_extension_satisfies", z3.And(*fa), detail=show(f))
+                eng.check(f"{cn}#lemma.sem4_TRUE_only_if_every_extension_satisfies", z3.And(*tu), detail=show(f))
+
+        holder["c"] = C.Contract(tgt, params=dict(self=C.Const(None)), setup=setup, post=post, inline_all=True, bounded=True, note=f"formulas {k0}..{k1 - 1} of the families above, traces of length <= {E2E_N}", properties=("C11",))
+        reg.add(holder["c"], key=key)
+
+    LCH = 80
+    for k in range(0, len(allf), LCH):
+        make_lemma(k, min(k + LCH, len(allf)))
